@@ -2,7 +2,13 @@
 """Self-made regressions (the M-numbers mentioned in properties.jsonl) applied one at a time to /repo,
 with the checks expected to catch them.  Usage: mutants.py [name ...]   (always restores /repo)"""
 import subprocess, sys, os, time
-R = '/repo/omaha-client/src/'
+WT = os.environ.get('MUT_WT', '/repo')       # a scratch worktree of /repo at the same commit, or /repo itself
+R = WT + '/omaha-client/src/'
+ENVP = dict(os.environ)
+if WT != '/repo':
+    scr = '/tmp/scr_' + os.path.basename(WT)
+    os.makedirs(scr, exist_ok=True)
+    ENVP.update(VERIF_REPO=WT, VERIF_SCRATCH=scr, VERIF_OUT=scr)
 M = [
  ('M05-verify-only-2xx', 'state_machine.rs', "        let signature: Option<DerSignature> = if let (Some(handler), Some(metadata)) =\n            (self.cup_handler.as_ref(), &request_metadata)\n        {",
   "        let signature: Option<DerSignature> = if let (Some(handler), Some(metadata), true) =\n            (self.cup_handler.as_ref(), &request_metadata, response.status().is_success())\n        {", ['C02']),
@@ -44,17 +50,17 @@ for name, f, old, new, checks in M:
         continue
     open(p, 'w').write(s.replace(old, new))
     try:
-        b = subprocess.run('cd /repo && cargo build --offline -q -p omaha_client 2>&1 | tail -3', shell=True, capture_output=True, text=True)
+        b = subprocess.run('cd %s && cargo build --offline -q -p omaha_client 2>&1 | tail -3' % WT, shell=True, capture_output=True, text=True)
         if 'error' in b.stdout:
             print('SKIP %s: does not compile: %s' % (name, b.stdout[-300:]))
             continue
         for c in checks:
             t = time.time()
-            r = subprocess.run(['./check', c], cwd='/verif', capture_output=True, text=True)
+            r = subprocess.run(['./check', c], cwd='/verif', capture_output=True, text=True, env=ENVP)
             viol = [l for l in r.stdout.split('\n') if l.startswith(('VIOLATED', 'INCONCLUSIVE '))]
             print('%-36s %s exit=%d %4.0fs  %s' % (name, c, r.returncode, time.time() - t, ' | '.join(v[:110] for v in viol[:2])), flush=True)
             out.append((name, c, r.returncode))
     finally:
-        subprocess.run('git -C /repo checkout -- .', shell=True)
+        subprocess.run('git -C %s checkout -- .' % WT, shell=True)
 print('caught:', sorted(set(n for n, c, rc in out if rc == 1)))
 print('missed:', sorted(set(n for n, c, rc in out) - set(n for n, c, rc in out if rc == 1)))
